@@ -117,4 +117,57 @@ theorem C15_attach_defect_witness :
     ([Att.all].flatMap (expandAtt [(1, [1, 2])])) = [1, 2] ∧
     normAtt true [(1, [1, 2])] [1, 1] = [.pulse 1, .pulse 1] := by decide
 
+/-! ### distributed loads -/
+
+theorem writeDist_skip (seen : List Bool) (k : DKind) (par : Nat) (tags : List Nat) (rest : List DLoad)
+    (h : seen.contains k.isCoat = true) :
+    writeDist true seen (tags.map (fun t => (⟨k, par, t, true⟩ : DLoad)) ++ rest) = writeDist true seen rest := by
+  induction tags with
+  | nil => rfl
+  | cons t r ih =>
+    simp only [List.map_cons, List.cons_append, writeDist, Bool.true_or, Bool.true_and, h, if_true]
+    exact ih
+
+/-- **distributed loads survive the option round trip**: for every option list `main` accepts
+(an untagged option is the first of its class) and every non-empty set of geo objects, writing the
+loads `main` built gives back exactly the options, in order — in particular several per-object
+skin-effect or insulation loads are all written -/
+theorem C15_dist (tags : List Nat) (htags : tags ≠ []) (opts : List DOpt) (seen : List Bool)
+    (hv : distValid seen opts = true) :
+    writeDist true seen (readDist tags opts) = opts := by
+  obtain ⟨t, ts, rfl⟩ := List.exists_cons_of_ne_nil htags
+  induction opts generalizing seen with
+  | nil => rfl
+  | cons o r ih =>
+    simp only [distValid, Bool.and_eq_true] at hv
+    obtain ⟨ho, hr⟩ := hv
+    obtain ⟨k, par, tag⟩ := o
+    cases tag with
+    | some u =>
+      have : readDist (t :: ts) (⟨k, par, some u⟩ :: r) = ⟨k, par, u, false⟩ :: readDist (t :: ts) r := by
+        simp [readDist]
+      rw [this]
+      simp only [writeDist, Bool.false_or, Bool.not_true, Bool.false_and, Bool.false_eq_true, if_false]
+      congr 1
+      exact ih _ hr
+    | none =>
+      simp only [Option.isSome_none, Bool.false_or, Bool.not_eq_true'] at ho
+      have : readDist (t :: ts) (⟨k, par, none⟩ :: r)
+          = ⟨k, par, t, true⟩ :: (ts.map (fun t => (⟨k, par, t, true⟩ : DLoad)) ++ readDist (t :: ts) r) := by
+        simp [readDist]
+      rw [this]
+      simp only [writeDist, Bool.true_or, Bool.true_and, ho, Bool.false_eq_true, if_false]
+      congr 1
+      rw [writeDist_skip _ k par ts _ (by simp)]
+      exact ih _ hr
+
+/-- non-vacuity: two per-object skin-effect loads and an all-wires insulation are a valid option list -/
+example : distValid [] [⟨.skinCond, 5, some 1⟩, ⟨.skinRes, 3, some 2⟩, ⟨.coat, 7, none⟩] = true := by decide
+
+/-- the former writer (`skip every later load of a class already written`) loses the second
+per-object load: the written options do not reproduce the model -/
+theorem C15_dist_defect_witness :
+    writeDist false [] (readDist [1, 2] [⟨.skinCond, 5, some 1⟩, ⟨.skinCond, 3, some 2⟩])
+      = [⟨.skinCond, 5, some 1⟩] := by decide
+
 end Pmn.Props.C15b
